@@ -10,6 +10,7 @@ while a:
     elif x == "--also": also = a.pop(0).split(",")
     elif x == "--all": ids = sorted(d for d in os.listdir("/verif/seeded") if os.path.isdir("/verif/seeded/" + d))
     else: ids.append(x)
+REPO = os.environ.get("VERIF_REPO", "/repo")
 respath = "/verif/seeded/RESULTS.json"
 res = json.load(open(respath)) if os.path.exists(respath) else {}
 def sh(c, **k): return subprocess.run(c, shell=True, stdout=subprocess.PIPE, stderr=subprocess.STDOUT, text=True, **k)
@@ -17,16 +18,16 @@ sys.path.insert(0, "/verif/tools"); import checks as CK
 for sid in ids:
     prop = sid.split("-")[0]
     props = [prop] + [p for p in also if p != prop]
-    if sh("git -C /repo diff --quiet").returncode != 0:
-        print("/repo not clean"); sys.exit(3)
+    if sh("git -C %s diff --quiet" % REPO).returncode != 0:
+        print(REPO + " not clean"); sys.exit(3)
     pf = "/verif/seeded/%s/patch.rebased.diff" % sid
     if not os.path.exists(pf):
         pf = "/verif/seeded/%s/patch.diff" % sid
-    r = sh("git -C /repo apply %s" % pf)
+    r = sh("git -C %s apply %s" % (REPO, pf))
     if r.returncode != 0:
-        r = sh("cd /repo && patch -p1 --fuzz=3 < /verif/seeded/%s/patch.diff" % sid)
+        r = sh("cd %s && patch -p1 --fuzz=3 < /verif/seeded/%s/patch.diff" % (REPO, sid))
         if r.returncode != 0:
-            print(sid, "PATCH DOES NOT APPLY", r.stdout[-300:]); sh("git -C /repo checkout -- ."); continue
+            print(sid, "PATCH DOES NOT APPLY", r.stdout[-300:]); sh("git -C %s checkout -- ." % REPO); continue
     for p in props:
         if p not in CK.CHECKS:
             print(sid, p, "no check yet"); continue
@@ -36,5 +37,5 @@ for sid in ids:
         rules = [l.strip() for l in r.stdout.splitlines() if l.strip().startswith("rule=")]
         res.setdefault(sid, {})[p + ":" + tier] = dict(detected=bool(viol) and r.returncode == 1, exit=r.returncode, first=rules[:2], wall=round(time.time() - t0, 1))
         print(sid, p, tier, "DETECTED" if viol and r.returncode == 1 else "missed (exit %d)" % r.returncode, rules[:1], "%.0fs" % (time.time() - t0))
-    sh("git -C /repo checkout -- . && git -C /repo clean -fdq src")
+    sh("git -C %s checkout -- . && git -C %s clean -fdq src" % (REPO, REPO))
     json.dump(res, open(respath, "w"), indent=1, sort_keys=True)
